@@ -173,3 +173,115 @@ pub fn status_code(status: &crate::cache::command::CommandStatus) -> i64 {
         CommandStatus::Rejected(RejectionReason::KeyAlreadyExists) => 13,
     }
 }
+
+// ---------------------------------------------------------------------------------------------------------------
+// Lock tracing: `RwLock` / `Mutex` are parking_lot's, plus one event before an acquisition ("acq"), one after
+// ("got") and one when the guard is dropped ("rel"). Identity = address of the lock. Mode: 0 read, 1 write/exclusive.
+
+pub const LK_ACQ: i64 = 1;
+pub const LK_GOT: i64 = 2;
+pub const LK_REL: i64 = 3;
+pub const LK_TOUCH: i64 = 4;
+
+/// an acquisition that is released again before the call returns (DashMap insert/remove/get without keeping the guard)
+pub fn lock_touch(lock: i64, mode: i64) { event("lk", &[LK_TOUCH, lock, mode]); }
+
+/// a guard of a map (DashMap `Ref`/`RefMut`/iterator) that stays alive while other code runs; released when the returned value drops
+pub fn lock_held(lock: i64, mode: i64) -> HeldLock {
+    event("lk", &[LK_ACQ, lock, mode]);
+    event("lk", &[LK_GOT, lock, mode]);
+    HeldLock(lock, mode)
+}
+
+pub struct HeldLock(i64, i64);
+
+impl Drop for HeldLock {
+    fn drop(&mut self) { event("lk", &[LK_REL, self.0, self.1]); }
+}
+
+/// blocking queue operations: kind 1 send, 2 recv; `queue` identifies the channel (1 commands, 2 access batches)
+pub fn queue_op(kind: i64, queue: i64) { event("q", &[kind, queue]); }
+
+pub struct RwLock<T>(parking_lot::RwLock<T>);
+
+pub struct ReadGuard<'a, T>(parking_lot::RwLockReadGuard<'a, T>, i64);
+
+pub struct WriteGuard<'a, T>(parking_lot::RwLockWriteGuard<'a, T>, i64);
+
+impl<T> RwLock<T> {
+    pub fn new(value: T) -> Self { RwLock(parking_lot::RwLock::new(value)) }
+
+    fn id(&self) -> i64 { self as *const Self as i64 }
+
+    pub fn read(&self) -> ReadGuard<'_, T> {
+        event("lk", &[LK_ACQ, self.id(), 0]);
+        let guard = self.0.read();
+        event("lk", &[LK_GOT, self.id(), 0]);
+        ReadGuard(guard, self.id())
+    }
+
+    pub fn write(&self) -> WriteGuard<'_, T> {
+        event("lk", &[LK_ACQ, self.id(), 1]);
+        let guard = self.0.write();
+        event("lk", &[LK_GOT, self.id(), 1]);
+        WriteGuard(guard, self.id())
+    }
+
+    /// not traced: used by the projection only
+    pub fn try_read(&self) -> Option<parking_lot::RwLockReadGuard<'_, T>> { self.0.try_read() }
+}
+
+impl<'a, T> std::ops::Deref for ReadGuard<'a, T> {
+    type Target = T;
+    fn deref(&self) -> &T { &self.0 }
+}
+
+impl<'a, T> Drop for ReadGuard<'a, T> {
+    fn drop(&mut self) { event("lk", &[LK_REL, self.1, 0]); }
+}
+
+impl<'a, T> std::ops::Deref for WriteGuard<'a, T> {
+    type Target = T;
+    fn deref(&self) -> &T { &self.0 }
+}
+
+impl<'a, T> std::ops::DerefMut for WriteGuard<'a, T> {
+    fn deref_mut(&mut self) -> &mut T { &mut self.0 }
+}
+
+impl<'a, T> Drop for WriteGuard<'a, T> {
+    fn drop(&mut self) { event("lk", &[LK_REL, self.1, 1]); }
+}
+
+pub struct Mutex<T>(parking_lot::Mutex<T>);
+
+pub struct MutexGuard<'a, T>(parking_lot::MutexGuard<'a, T>, i64);
+
+impl<T> Mutex<T> {
+    pub fn new(value: T) -> Self { Mutex(parking_lot::Mutex::new(value)) }
+
+    fn id(&self) -> i64 { self as *const Self as i64 }
+
+    pub fn lock(&self) -> MutexGuard<'_, T> {
+        event("lk", &[LK_ACQ, self.id(), 1]);
+        let guard = self.0.lock();
+        event("lk", &[LK_GOT, self.id(), 1]);
+        MutexGuard(guard, self.id())
+    }
+
+    /// not traced: used by the projection only
+    pub fn try_lock(&self) -> Option<parking_lot::MutexGuard<'_, T>> { self.0.try_lock() }
+}
+
+impl<'a, T> std::ops::Deref for MutexGuard<'a, T> {
+    type Target = T;
+    fn deref(&self) -> &T { &self.0 }
+}
+
+impl<'a, T> std::ops::DerefMut for MutexGuard<'a, T> {
+    fn deref_mut(&mut self) -> &mut T { &mut self.0 }
+}
+
+impl<'a, T> Drop for MutexGuard<'a, T> {
+    fn drop(&mut self) { event("lk", &[LK_REL, self.1, 1]); }
+}
